@@ -47,3 +47,11 @@ reg("C05",
     explanation="every shape with an object node up to the depth bound; an unknown field holding each of 12 JSON values is inserted first/between/last into each object node (one and two injections); the document is read by every client and server path, dynamic structs and derive-based twins",
     level_text="Bounded exhaustive exploration of nesting contexts x injection points on the implementation: every container path below deserialize_struct (seq, map value, option, newtype/alias, nested struct) is reached at every depth up to the bound, for JSON and Smile and every input source.",
     level_note="Trusted: the Conjure serializers to render the injected documents (guarded: a case is only judged if its un-injected document round-trips); derive-based twins bind the dynamic struct to serde derive. Generated Conjure objects are covered by the E2 part when built.")
+
+reg("C13",
+    packages=["shapes"], bin="shapes", level="model_checking", engine="E1 shapes",
+    technique="explicit-state enumeration of (shape, value) states, of JSON documents of a grammar, and of (document, shape) pairs, each executed on the real Any serializer/deserializer and compared with direct (non-Any) serialization/parsing",
+    design_ref="DESIGN.md §3 C13",
+    explanation="A: value -> Any -> value and json(Any(v)) == json(v) for every (shape, value) incl. all integer widths, f32, char, unit, tuples, newtype/tuple structs, enums with all variant kinds, maps keyed by every scalar kind; B: every JSON document of a grammar to depth 3 -> Any -> JSON equivalent; C: every (document, shape) pair that parses directly must give the same value through Any",
+    level_text="Bounded exhaustive exploration of the value/shape grammar and of a JSON document grammar against a differential oracle (direct serialization / direct parsing by the same Conjure JSON code path), executed on the implementation.",
+    level_note="Trusted: conjure-serde's direct JSON path as the reference for 'same document' / 'same coercions' (its own correctness is C01's business); plain serde_json::Value equality for document equivalence. JSON integers beyond 64 bits are outside the statement.")
